@@ -297,7 +297,25 @@ class RunM(RunBase):
             # own run() is called behind the journalling probe
             self.mon = plugins.Autoreloader(self.bus, frequency=(1 if case['freq'] else 0), match='^$')
             poll = self.mon.callback
-            self.mon.callback = lambda: (self._cb(), poll())
+            self.touched = None
+            self.polls = [0, 0]         # polls completed before / after the watched file changed
+            if case['ar'] == 2:
+                # a watched file that changes at the schedule step 'u': the worker itself then cancels its task
+                # and calls bus.restart() -> exit -> 'stop' -> Autoreloader.stop() from the worker thread
+                import tempfile
+                fd, self.watched = tempfile.mkstemp(prefix='c20-watched-')
+                os.close(fd)
+                self.undo.append(lambda: os.path.exists(self.watched) and os.remove(self.watched))
+                self.mon.files.add(self.watched)
+                self.mon.subscribe()
+                self.bus._do_execv = lambda: None
+
+            def probe():
+                self._cb()
+                k = 0 if self.touched is None else 1
+                poll()
+                self.polls[k] += 1
+            self.mon.callback = probe
         else:
             self.mon = plugins.Monitor(self.bus, self._cb, frequency=(1 if case['freq'] else 0), name='m')
         if not case['daemon']:
@@ -343,6 +361,22 @@ class RunM(RunBase):
             getattr(self.mon, call)()
             self.rets2.append((k, call, begin, self.tick()))
 
+    def runnable(self, tid):
+        if tid == 'u':
+            return self.case.get('ar') == 2 and self.touched is None
+        return RunBase.runnable(self, tid)
+
+    def step(self, tid):
+        if tid == 'u':
+            if not self.runnable(tid):
+                return False
+            self.clock += 1
+            st = os.stat(self.watched)
+            os.utime(self.watched, (st.st_atime + 100, st.st_mtime + 100))
+            self.touched = self.tick()
+            return True
+        return RunBase.step(self, tid)
+
     def _widx(self, obj):
         for i, w in enumerate(self.workers):
             if w is obj:
@@ -350,7 +384,7 @@ class RunM(RunBase):
         return None
 
     def model_tid(self, tid):
-        if tid in ('c', 'k'):
+        if tid in ('c', 'k') or tid not in self.s.recs:
             return tid
         rec = self.s.recs[tid]
         i = self._widx(rec.thread)
@@ -423,10 +457,38 @@ def oracle_M_overlap(case, run):
     return bad
 
 
+def oracle_M_reload(case, run):
+    """Autoreloader whose watched file changes: the worker cancels itself and restarts the bus from inside
+    the callback.  Demanded: no controller call fails or hangs; once the worker has polled the file before
+    AND after the change, the bus has been asked to re-exec and driven to EXITING, the monitor has let go of
+    the worker, and the worker invokes the callback at most once more after that poll."""
+    bad = []
+    crec = run.s.recs['c']
+    if crec.exc is not None:
+        return [('controller call raised %r' % (crec.exc,), 'M:controller_exception:%s' % type(crec.exc).__name__)]
+    if not crec.done:
+        return [('a controller call never returned', 'M:call_never_returns')]
+    for tid, r in run.s.recs.items():
+        if r.kind == 'worker' and r.exc is not None:
+            bad.append(('the reloading worker %s died with %r' % (tid, r.exc), 'M:reload_exception:%s' % type(r.exc).__name__))
+    if run.touched is not None and run.polls[0] >= 1 and run.polls[1] >= 1 and not bad:
+        names = {id(getattr(run.bus.states, n)): n for n in ('STOPPED', 'STARTING', 'STARTED', 'STOPPING', 'EXITING')}
+        st = names.get(id(run.bus.state), repr(run.bus.state))
+        if not run.bus.execv or st != 'EXITING':
+            bad.append(('the watched file changed and was polled, but the bus is %s with execv=%s'
+                        % (st, run.bus.execv), 'M:reload_not_requested'))
+        if run.polls[1] > 2:
+            bad.append(('the worker polled %d more times after it had seen the change' % (run.polls[1] - 1),
+                        'M:callbacks_after_stop'))
+    return bad
+
+
 def oracle_M(case, run):
     """The property statement evaluated on what the real threads did (complete runs only)."""
     if case.get('calls2'):
         return oracle_M_overlap(case, run)
+    if case.get('ar') == 2:
+        return oracle_M_reload(case, run)
     bad = []
     crec = run.s.recs['c']
     if crec.exc is not None:
@@ -895,7 +957,7 @@ def scenario_key(case):
     k = case['k']
     if k == 'M':
         return 'M %d %d %s %s%s%s%s' % (case['freq'], case['daemon'], ','.join(case['calls']) or '-',
-                                        'ar ' if case.get('ar') else '', 'op ' if case.get('op') else '',
+                                        'ar%s ' % case['ar'] if case.get('ar') else '', 'op ' if case.get('op') else '',
                                         'boom=%s' % (case.get('boom'),) if case.get('boom') else '',
                                         ' ||' + ','.join(case['calls2']) if case.get('calls2') else '')
     if k == 'B':
@@ -917,6 +979,8 @@ def model_line(case, trace):
 def comparable(case):
     if case.get('op'):
         return False            # bytecode-granular runs: oracle only
+    if case['k'] == 'M' and case.get('ar') == 2:
+        return False            # Autoreloader restarting the bus from inside its callback: oracle only
     if case['k'] == 'M' and case.get('boom'):
         return MODEL_HAS.get('boom', False)
     if case['k'] == 'B' and case.get('intr'):
@@ -934,13 +998,26 @@ def comparable(case):
 MODEL_HAS = {'boom': True, 'foreign': True}
 
 
+_hangs = {}         # scenario kind -> number of hangs seen in this process
+
+
 def execute(case):
     """Run one case on the real threads.
     Returns (trace, oracle failures, #threads that ran, labels of the executed accesses)."""
+    if _hangs.get(case['k'], 0) >= 1:
+        # a thread of an earlier case is still spinning inside the code under test in this process: that
+        # case has been reported; running more cases beside it would only produce timeouts
+        return '~skipped', [], 0, []
     try:
         run = RUNNERS[case['k']](case)
     except S.SchedError as e:
         raise common.HarnessError('scheduler: %s (case %s)' % (e, json.dumps(case)[:400]))
+    except common.HarnessError:
+        raise
+    except Exception as e:      # noqa - the code under test cannot even be set up: an observation
+        S._cur[0] = None
+        return '~setup-failed', [('setting up the scenario raised %r' % (e,),
+                                  '%s:setup_exception:%s' % (case['k'], type(e).__name__))], 0, []
     labels = []
     try:
         last = run.obs()
@@ -950,11 +1027,12 @@ def execute(case):
             if not run.runnable(tid):
                 continue
             mt = run.model_tid(tid)
-            lab = None if tid.startswith('f') else run.s.recs[tid].pending
+            lab = run.s.recs[tid].pending if tid in run.s.recs else None
             try:
                 run.step(tid)
             except S.Hang as e:
                 hang = e
+                _hangs[case['k']] = _hangs.get(case['k'], 0) + 1
                 break
             o = run.obs()
             labels.append((tid, lab))
@@ -1049,7 +1127,7 @@ def check_cases(ctx, cases, compare=True):
             ctx.oracle_fail(case, what, sig)
         done.append((case, trace, any(not sig.startswith('INFO:') for _w, sig in bad)))
     if compare:
-        comp = [(c, t) for (c, t, _b) in done if comparable(c)]
+        comp = [(c, t) for (c, t, _b) in done if comparable(c) and not t.startswith('~s')]
         answers = _model_parallel(ctx, [model_line(c, t) for c, t in comp])
         if answers is not None:
             for (c, t), a in zip(comp, answers):
@@ -1247,6 +1325,12 @@ def all_cases(ctx):
                 for a2 in ((4, 9, 30) if quick else (2, 4, 6, 9, 12, 30)):
                     cases.append({'k': 'M', 'freq': 1, 'daemon': 1, 'calls': calls, 'calls2': calls2,
                                   'sched': ['c'] * a + ['k'] * b + ['c'] * a2 + ['k'] * 9 + ['c'] * 12 + ['w2'] * 9})
+    # the real Autoreloader with a watched file that changes ('u'): the worker restarts the bus itself
+    for calls in (['start'], ['graceful'], ['start', 'graceful']):
+        for b in range(0, 14, 2 if quick else 1):
+            for d in (4, 5, 9):
+                cases.append({'k': 'M', 'freq': 1, 'daemon': 1, 'calls': calls, 'ar': 2,
+                              'sched': ['c'] * 26 + ['w1'] * b + ['w2'] * b + ['u'] + ['w1'] * d + ['w2'] * d})
     for calls in (MAIN_SEQ, ['start', 'graceful', 'stop'], ['start', 'stop', 'start']):
         cases += list(gen_M_two(calls, 1, ctx.rng.choice([0, 1]), ctx.rng, 40 if quick else 1500))
     # B
@@ -1336,19 +1420,24 @@ def replay(ctx, case):
 LEVEL_TEXT = ('proof (partial). Proved in Lean, for EVERY schedule, every controller call sequence and any number of '
               'threads, over interleaving models of the repaired code: at most one armed worker per monitor; once '
               'stop() has returned the cancelled worker invokes the callback at most once more and then never again; '
-              'start/graceful leave exactly one armed live worker and stop none; stop() joins a non-daemon worker; '
-              'EXITING is stable, block() returns within 5 own steps of the main thread once the bus is EXITING, never '
-              'earlier, and execv happens iff restart() was called; start_thread/stop_thread obey a conservation law '
-              'that gives exactly one stop_thread per start_thread at quiescence and stop() never raises. The pre-fix '
-              'protocols (worker arms itself; stop() iterates the live dict) are proved FALSE by witness schedules and '
-              'true under explicit side conditions. Tie to the code: real threads are driven at shared-state accesses '
-              'and primitive calls (no source lines involved); the Lean driver decides for every recorded trace whether '
-              'the model admits it (trace inclusion modulo stuttering, subset construction); the construction is '
-              'proved sound (an admitted trace is a sampling of a model run, so it inherits every safety theorem: '
-              'C20_admitted_*_safe). Partial: the theorems are about the models; bytecode atomicity and real-time '
-              'sleeping are outside the models.')
+              'start/graceful leave exactly one armed worker (alive unless its own callback raised) and stop none; '
+              'stop() joins a non-daemon worker; schedules include callbacks that raise (run() re-raises, the worker '
+              'dies armed: it is inert, start() does not replace it, graceful() does); EXITING is stable; block() '
+              'returns within 2*#foreign+14 own steps once the bus is EXITING and the non-daemon foreign threads have '
+              'finished, never earlier; it joins exactly the non-daemon threads other than the caller and the main '
+              'thread; execv happens iff restart() was called, by the main thread, after those joins; '
+              'start_thread/stop_thread obey a conservation law that gives exactly one stop_thread per start_thread at '
+              'quiescence and stop() never raises. The pre-fix protocols (worker arms itself; stop() iterates the live '
+              'dict) and overlapping controller calls (second controller thread) are proved FALSE by witness '
+              'schedules. Tie to the code: real threads are driven at shared-state accesses and primitive calls (no '
+              'source lines involved); the Lean driver decides for every recorded trace whether the model admits it '
+              '(trace inclusion modulo stuttering, subset construction, proved sound: an admitted trace is a sampling '
+              'of a model run and inherits every safety theorem, C20_admitted_*_safe). Partial: the theorems are about '
+              'the models; bytecode atomicity, real-time sleeping, Ctrl-C inside wait() and the Autoreloader restarting '
+              'the bus from its own callback are outside the models (oracle only).')
 LEVEL_NOTE = ('Trusted: Lean kernel (propext, Classical.choice, Quot.sound only); the hand models CpModel/Monitor.lean, '
               'BlockWait.lean, ThreadMgr.lean as validated on this run by trace inclusion of the real threads\' '
               'observable traces under harness/c20_sched.py; CPython switching threads only between bytecodes with '
               'atomic attribute/dict operations; the instrumented attributes/primitives are the only shared state of '
-              'the anchored code; controller calls on one monitor do not overlap; bus listeners do not raise.')
+              'the anchored code; controller calls on one monitor do not overlap (overlap is modelled, its failures '
+              'are proved and reproduced, not demanded); bus listeners do not raise.')
